@@ -12,7 +12,7 @@ import vcommon
 from ovnitrace import Scratch
 
 PID = "C10"
-WHATS = ["ENOSPC", "EIO", "EACCES", "short"]
+WHATS = ["ENOSPC", "EIO", "EACCES", "EINTR", "short"]
 REPORTED = set()
 # the readdir order only matters to the code before `fix: relocate stream.obs before stream.json`
 CONFIGS = [("direct", False, None), ("tmp-obs-first", True, ".:oj"), ("tmp-json-first", True, ".:jo")]
@@ -174,6 +174,10 @@ def run_config(res, h, drv, emu, d, cfg, scripts, specs=None):
             res.cov.setdefault("correspondence_breaks", []).append(
                 {"script": sc[:300], "what": "%s: fault %s on call #%d (%s): %s" % (name, what, idx, call, what_diff)})
         probs = fault_oracle(emu, sub, k, sc, run, "free" in fs_lib.script_ops(sc), ckind if run.nfaults else None)
+        if run.cls not in ("returned", "die") and run.nfaults:
+            # neither a normal return nor a diagnostic + abort: a signal or a sanitizer report after the
+            # injected fault (memory error on the error path) is not "terminates with a diagnostic"
+            probs = ["the runtime neither returned nor died with a diagnostic after the fault: %s" % run.outcome] + probs
         if probs:
             found = True
             key = site_key(ref[k].calls, idx, name)
@@ -203,14 +207,14 @@ def load_replay(path):
 
 def check(res, tier, replay=None):
     res.cov["rule"] = ("conformant single-thread programs run on the real libovni (direct and OVNI_TMPDIR mode, both readdir "
-                       "orders, which only matter to the code before the fix); for EVERY intercepted libc call index and each of ENOSPC/EIO/EACCES/short one run with that "
+                       "orders, which only matter to the code before the fix); for EVERY intercepted libc call index and each of ENOSPC/EIO/EACCES/EINTR/short one run with that "
                        "call failing; abort vs. return, the calls made after the fault and the final directory contents must "
                        "equal the model's prediction; oracle on the implementation: returned normally => final trace complete "
                        "(finished marker, every flushed event, accepted by ovniemu -l) and, whatever the outcome, a complete "
                        "copy of the flushed stream still exists. distinct by (config, fault, script)")
     res.assumptions = ["a failed fclose discards the stdio buffer; a failed close means the last write did not reach the file "
                        "(deferred write error); a failed fwrite/fputs transfers nothing, a short one half of the data",
-                       "one fault per run; errno classes ENOSPC/EIO/EACCES"]
+                       "one fault per run; errno classes ENOSPC/EIO/EACCES/EINTR (the runtime treats every errno alike)"]
     prep = engine.prepare(res, drivers=("drv_fs",))
     proved = vcommon.prove(res, "C10")
     found = False
@@ -233,7 +237,7 @@ def check(res, tier, replay=None):
                     # per-kind counting as well (the n-th call of one kind)
                     kinds = ["mkdir", "stat", "open", "write", "close", "fopen", "fputs", "fwrite", "fread", "fclose",
                              "opendir", "readdir", "closedir", "remove", "rmdir"]
-                    specs = ["%s:%d:%s" % (kd, n, w) for kd in kinds for n in (1, 2) for w in ("EIO", "short")]
+                    specs = ["%s:%d:%s" % (kd, n, w) for kd in kinds for n in (1, 2) for w in ("EIO", "EINTR", "short")]
                     found |= run_config(res, h, drv, emu, d, (cfg[0] + "-bykind", cfg[1], cfg[2]), scripts[:2], specs=specs)
         res.cov["emulator_runs"] = emu.runs
         for b in res.cov.get("correspondence_breaks", [])[:3]:
